@@ -63,7 +63,7 @@ SPECS = [
         subst={"self.max_episodes": "max_episodes", "self.training_env.num_envs": "num_envs"},
     ),
     dict(
-        name="maxep_count", qual="StopTrainingOnMaxEpisodes._on_step", start=r"^self\.n_episodes \+= ", end=None,
+        name="maxep_count", qual="StopTrainingOnMaxEpisodes._on_step", start=r"^self\.n_episodes \S= ", end=None,
         inputs=[("n_episodes", "Z"), ("ndones", "Z")],
         subst={"self.n_episodes": "n_episodes", "np.sum(self.locals['dones']).item()": "ndones"},
         outputs=[("n_episodes", "Z")],
@@ -81,8 +81,8 @@ SPECS = [
     ),
     # StopTrainingOnNoModelImprovement: the whole decision block
     dict(
-        name="noimp_block", qual="StopTrainingOnNoModelImprovement._on_step", start=r"^continue_training = True", end=r"^self\.last_best_mean_reward = ",
-        inputs=[("n_calls", "Z"), ("min_evals", "Z"), ("best", "Z"), ("last_best", "Z"), ("no_improvement_evals", "Z"), ("max_no", "Z")],
+        name="noimp_block", qual="StopTrainingOnNoModelImprovement._on_step", start=r"^if self\.n_calls\b", end=r"^self\.last_best_mean_reward = ",
+        inputs=[("continue_training", "bool"), ("n_calls", "Z"), ("min_evals", "Z"), ("best", "Z"), ("last_best", "Z"), ("no_improvement_evals", "Z"), ("max_no", "Z")],
         subst={"self.n_calls": "n_calls", "self.min_evals": "min_evals", "self.parent.best_mean_reward": "best",
                "self.last_best_mean_reward": "last_best", "self.no_improvement_evals": "no_improvement_evals",
                "self.max_no_improvement_evals": "max_no"},
@@ -94,12 +94,12 @@ SPECS = [
         inputs=[("n_steps", "Z"), ("n_rollout_steps", "Z")],
     ),
     dict(
-        name="onpol_count", file=_ON, qual="OnPolicyAlgorithm.collect_rollouts", start=r"^self\.num_timesteps \+= ", end=None,
+        name="onpol_count", file=_ON, qual="OnPolicyAlgorithm.collect_rollouts", start=r"^self\.num_timesteps \S= ", end=None,
         inputs=[("num_timesteps", "Z"), ("num_envs", "Z")],
         subst={"self.num_timesteps": "num_timesteps", "env.num_envs": "num_envs"}, outputs=[("num_timesteps", "Z")],
     ),
     dict(
-        name="onpol_nsteps_inc", file=_ON, qual="OnPolicyAlgorithm.collect_rollouts", start=r"^n_steps \+= ", end=None,
+        name="onpol_nsteps_inc", file=_ON, qual="OnPolicyAlgorithm.collect_rollouts", start=r"^n_steps \S= ", end=None,
         inputs=[("n_steps", "Z")], outputs=[("n_steps", "Z")],
     ),
     dict(
@@ -108,13 +108,13 @@ SPECS = [
     ),
     # emission points: off-policy loops
     dict(
-        name="offpol_count", file=_OFF, qual="OffPolicyAlgorithm.collect_rollouts", start=r"^self\.num_timesteps \+= ", end=r"^num_collected_steps \+= ",
+        name="offpol_count", file=_OFF, qual="OffPolicyAlgorithm.collect_rollouts", start=r"^self\.num_timesteps \S= ", end=r"^num_collected_steps \S= ",
         inputs=[("num_timesteps", "Z"), ("num_envs", "Z"), ("num_collected_steps", "Z")],
         subst={"self.num_timesteps": "num_timesteps", "env.num_envs": "num_envs"},
         outputs=[("num_timesteps", "Z"), ("num_collected_steps", "Z")],
     ),
     dict(
-        name="offpol_episode_inc", file=_OFF, qual="OffPolicyAlgorithm.collect_rollouts", start=r"^num_collected_episodes \+= ", end=None,
+        name="offpol_episode_inc", file=_OFF, qual="OffPolicyAlgorithm.collect_rollouts", start=r"^num_collected_episodes \S= ", end=None,
         inputs=[("num_collected_episodes", "Z")], outputs=[("num_collected_episodes", "Z")],
     ),
     dict(
@@ -132,7 +132,7 @@ SPECS = [
     # _setup_learn: counter reset / total extension
     dict(
         name="setup_learn_counters", file="stable_baselines3/common/base_class.py", qual="BaseAlgorithm._setup_learn",
-        start=r"^if reset_num_timesteps:$", end=None,
+        start=r"^if (not )?reset_num_timesteps:", end=None,
         inputs=[("reset_num_timesteps", "bool"), ("num_timesteps", "Z"), ("episode_num", "Z"), ("total_timesteps", "Z")],
         subst={"self.num_timesteps": "num_timesteps", "self._episode_num": "episode_num"},
         outputs=[("num_timesteps", "Z"), ("episode_num", "Z"), ("total_timesteps", "Z")],
